@@ -63,6 +63,7 @@ def parse : List String → Option (Option Ev)
   | ["hma", a, b] => match slotOf a, slotOf b with
       | some a, some b => some (some (.hbegin (.movea a b)))
       | _, _ => none
+  | ["hfree"] => some none   -- client-side ownership marker for the python oracle (stutter)
   | ["he"] => some (some (.hend none))
   | ["he", b] => (boolOf b).map (fun b => some (.hend (some b)))
   | ["prd", "P", v] => v.toInt?.map (fun v => some (.rd v))
